@@ -972,7 +972,7 @@ CONFIG["C17"] = dict(
 
 CONFIG["C20"] = dict(
     modules=["Mdns.Props.C20"],
-    model_files="Mdns/Model/Cache.lean, Mdns/Model/Sched.lean",
+    model_files="Mdns/Model/Client.lean, Mdns/Model/Cache.lean, Mdns/Model/Sched.lean",
     nontrivial=_sim_nontrivial,
     extra_evidence=_sim_extra,
     rule="client histories with a scripted responder (harness/src/c17.rs generate_c20): announcements, partial record sets "
@@ -980,17 +980,22 @@ CONFIG["C20"] = dict(
          "started and stopped, get_metrics readings along the way and after tails of 20 s .. 5000 s (beyond every TTL and "
          "beyond the one-hour life of a cancelled retransmission timer). Non-trivial = at least one packet and one client "
          "event. Distinct = distinct scripts.",
-    level_text="`drained` (after every cached record has expired one eviction pass leaves all five cache tables empty, including "
-               "records no PTR points to - the repair of D19), `evict_only_removes`, `idle_arms_nothing` are Lean theorems on "
-               "the cache / scheduler models (the cache model is compared with the real DnsCache op by op in C11). The monitor "
-               "ok_C20 reads the daemon's own metrics on real histories: no cached record and at most the interface-check timer "
-               "once every TTL has passed and all searches ended; at every reading, no more cached records than the usable "
-               "delivered records some search of the history needs.",
+    level_text="On the client model (Client.iter, compared with the real daemon per iteration incl. the metrics), whole histories "
+               "from the fresh daemon: cache_bounded (every cached entry is the copy of a delivered record whose lifetime was not "
+               "over at the last iteration, filed under its own name), drained_cache (once the lifetime of every delivered record "
+               "is over an iteration leaves all five tables empty, counters 0 - searches open or not), timers_bounded (every "
+               "pending timer is the interface check or lies within the horizon of the history: last iteration + 1 h, end of a "
+               "delivered lifetime, a deadline given with resolve_hostname / verify), drained_run (nothing browsed, nothing "
+               "queued, then any input-free iterations: the first iteration at or after the horizon leaves an empty cache and no "
+               "timer but the interface check), quiet_iter. On the cache model: drained, evict_only_removes; scheduler fragment: "
+               "idle_arms_nothing. The monitor ok_C20 reads the daemon's own metrics on real histories.",
     level_note="Trusted: Lean kernel; allowed axioms only; simulation seams; the daemon-level clauses are decided by the monitor "
                "on metrics, not by a model prediction. Keys left empty in the maps of records the cache declines are not visible "
                "in the metrics and not judged.",
-    partial=["`bounded` (size <= f(active searches)) is monitor-only; the acceptance rule for PTR-less packets makes it false of the "
-             "code (known finding D25)"],
+    partial=["`bounded` by what the active searches NEED is monitor-only; the acceptance rule for PTR-less packets makes it false of "
+             "the code (known finding D25); cache_bounded bounds the cache by what was DELIVERED and is still live",
+             "the size corollary (number of entries <= number of distinct live delivered records) is not proved (needs the "
+             "uniqueness invariant of the cache lists); the `subtype` map is never pruned (not a table of records)"],
     assumptions=["metrics are the observable (as the statement says)"],
 )
 
